@@ -6,8 +6,10 @@ breaks), and undoes it.  Prints a JSON summary."""
 import json, os, subprocess, sys, shutil, time
 
 def sh(cmd, cwd=None, timeout=1800):
-    p = subprocess.run(cmd, cwd=cwd, shell=True, stdout=subprocess.PIPE, stderr=subprocess.STDOUT, text=True, timeout=timeout,
-                       env=dict(os.environ, CARGO_NET_OFFLINE="true"))
+    env = dict(os.environ, CARGO_NET_OFFLINE="true")
+    if cwd and cwd.startswith("/tmp/vt_work"):
+        env["CARGO_TARGET_DIR"] = "/tmp/vt_target"       # scratch worktrees share one build directory (same path every time)
+    p = subprocess.run(cmd, cwd=cwd, shell=True, stdout=subprocess.PIPE, stderr=subprocess.STDOUT, text=True, timeout=timeout, env=env)
     return p.returncode, p.stdout
 
 def main():
@@ -21,7 +23,8 @@ def main():
     res = {"property": pid, "seed": sd}
     confirm = os.environ.get("SEED_CONFIRM", "1") == "1"
     if confirm:
-        wt = "/tmp/vt_%s_%d" % (pid, os.getpid())
+        wt = "/tmp/vt_work"
+        sh("git -C /repo worktree remove --force %s" % wt)
         sh("git -C /repo worktree add -q --detach %s HEAD" % wt)
         try:
             shutil.copy("/repo/Cargo.lock", wt)
